@@ -21,7 +21,8 @@ Pre == StdPre(EnvId)
 L == IF P_SIZE >= 2 THEN LeavesFull ELSE LeavesSmall
 
 \* a universe element is a tree (environment E1) or [e, envid]
-MkCase(x) == IF "style" \in DOMAIN x
+MkCase(x) == IF P_MODE = "bcbig" THEN [e |-> x, envid |-> EnvId, big |-> TRUE, run |-> [acc |-> FALSE, why |-> "not evaluated here"]]
+             ELSE IF "style" \in DOMAIN x
              THEN [e |-> x.e, envid |-> x.envid, style |-> x.style, run |-> Run2(x.e, InEnv(StdEnvIn(x.envid)), StdPre(x.envid), StdPost(x.envid))]
              ELSE IF "envid" \in DOMAIN x
              THEN [e |-> x.e, envid |-> x.envid, run |-> Run2(x.e, InEnv(StdEnvIn(x.envid)), StdPre(x.envid), StdPost(x.envid))]
@@ -53,6 +54,8 @@ Universe ==
     [] P_MODE = "objs" -> ObjProgs
     [] P_MODE = "partial" -> PartialProgs(P_SIZE)
     [] P_MODE = "builtins" -> BuiltinProgs(P_SIZE)
+    [] P_MODE = "specials" -> SpecialProgs
+    [] P_MODE = "bcbig" -> BcBigProgs(P_SIZE)
     [] P_MODE = "lazy" -> LazyProgs
     [] P_MODE = "opt" -> OptProgs
     [] P_MODE = "over" -> OverProgs
@@ -72,7 +75,8 @@ Next == /\ "seed" \in DOMAIN st
            ELSE \E j \in SeedLo(st.seed)..SeedHi(st.seed) : st' = MkCase(Universe[j])
 
 Emit ==
-  /\ IsCase => EmitCase(IF "style" \in DOMAIN st THEN [fam |-> "eval", e |-> st.e, envid |-> st.envid, style |-> st.style]
+  /\ IsCase => EmitCase(IF "big" \in DOMAIN st THEN [fam |-> "eval", e |-> st.e, envid |-> st.envid, big |-> TRUE]
+                         ELSE IF "style" \in DOMAIN st THEN [fam |-> "eval", e |-> st.e, envid |-> st.envid, style |-> st.style]
                                                     ELSE [fam |-> "eval", e |-> st.e, envid |-> st.envid])
   /\ "envs" \in DOMAIN st => \A i \in 1..Len(EnvIds) :
         EmitCase([envid |-> EnvIds[i], env |-> StdEnvIn(EnvIds[i]), pre |-> StdPre(EnvIds[i]), post |-> StdPost(EnvIds[i])])
